@@ -164,6 +164,14 @@ def run(ctx):
                         ctx.violation('C09:transvection:apply', 'transvection(v0,h0,h1) != v1', dict(v0=li(v0), v1=li(v1)))
                 except Exception as ex:
                     ctx.violation('C09:exception:find_transvection', repr(ex), dict(v0=li(v0), v1=li(v1)))
+    # the counting functions up to n = 10 (exact big integers as base-1000 limbs; TLC multiplies the factors itself)
+    limbs = lambda v: [int(d) for d in [(abs(int(v)) // 1000 ** k) % 1000 for k in range(max(1, (len(str(abs(int(v)))) + 2) // 3))]]
+    for n in range(1, 11):
+        try:
+            o, b, c = spf2.get_number(n, 'order'), spf2.get_number(n, 'base'), spf2.get_number(n, 'coset')
+            ev.append(dict(op='numbers', n=n, nonneg=bool(int(o) >= 0 and all(int(x) >= 0 for x in c)), order=limbs(o), base=li(b), coset=[limbs(x) for x in c]))
+        except Exception as ex:
+            ctx.violation('C09:exception:get_number', repr(ex), dict(n=n))
     for i in range(200 if quick else 3000):
         n = rng.randint(1, 10)
         sd = rng.randrange(10**6)
@@ -187,10 +195,10 @@ def run(ctx):
     ctx.models.append(dict(model='Trace_Sp[ft,rand]', events=len(ev), accepted=acc, rejected=len(rej), exhaustive=False))
     ctx.traces += len(ev)
     for e in ev:
-        ctx.case((e['op'], repr(e.get('v0')), repr(e.get('v1')), repr(e.get('t'))))
+        ctx.case((e['op'], repr(e.get('v0')), repr(e.get('v1')), repr(e.get('t')), e.get('n') if e['op'] == 'numbers' else None))
     for gi, info in rej:
         e = ev[gi]
-        key = {'ft': 'C09:find_transvection:maps-v0-to-v1', 'rand': 'C09:rand_SpF2:valid', 'index': 'C09:rand_SpF2:return-kinds'}[e['op']]
+        key = {'ft': 'C09:find_transvection:maps-v0-to-v1', 'rand': 'C09:rand_SpF2:valid', 'index': 'C09:rand_SpF2:return-kinds', 'numbers': 'C09:get_number:order-base-coset'}[e['op']]
         ctx.violation(key, 'event rejected by Trace_Sp: ' + e['op'], e)
     validate_repo_tests(ctx)
     ctx.sample(dict(kind='find_transvection', event=[e for e in ev if e['op'] == 'ft'][37]))
